@@ -45,6 +45,7 @@ type cparser struct {
 	// caller (recorded finding C03-hlsl-private-array-declarator) so that the rest of the text can
 	// still be checked.
 	prefixArrayDecls int
+	hidden           []string // user type names hidden by a parameter / local of the current function
 }
 
 var cPuncts = []string{
@@ -197,6 +198,23 @@ func dialectOfText(src string) string {
 
 func (p *cparser) isType(s string) bool { return cBuiltinType.MatchString(s) || p.types[s] }
 
+// hideType: a parameter or local variable named like a user type hides the type until the end of the function (C++ / HLSL
+// / GLSL scoping; coarser than the block structure, which is enough for the emitted text: the writers never name a type
+// inside a function body after declaring a variable of that name).
+func (p *cparser) hideType(name string) {
+	if p.types[name] {
+		delete(p.types, name)
+		p.hidden = append(p.hidden, name)
+	}
+}
+
+func (p *cparser) unhideTypes() {
+	for _, n := range p.hidden {
+		p.types[n] = true
+	}
+	p.hidden = nil
+}
+
 func (p *cparser) tok() ctok  { return p.toks[p.p] }
 func (p *cparser) peek(n int) ctok {
 	if p.p+n < len(p.toks) {
@@ -263,6 +281,11 @@ func (p *cparser) skipBalanced(open, close string) {
 	p.fail("unbalanced %s", open)
 }
 
+// HLSL attribute names are looked up in their own name space: a user struct called `numthreads` does not hide them.
+var cHlslAttr = map[string]bool{"numthreads": true, "earlydepthstencil": true, "unroll": true, "loop": true, "branch": true, "flatten": true,
+	"forcecase": true, "call": true, "maxvertexcount": true, "domain": true, "partitioning": true, "outputtopology": true,
+	"outputcontrolpoints": true, "patchconstantfunc": true, "instance": true}
+
 // attrs: HLSL [numthreads(1,1,1)], MSL [[buffer(0)]]; returned as flat text atoms.
 func (p *cparser) attrs() []string {
 	var out []string
@@ -275,7 +298,7 @@ func (p *cparser) attrs() []string {
 			}
 			p.expect("]]")
 			out = append(out, q(strings.Join(sb, "")))
-		} else if p.is("[") && p.peek(1).k == 'i' && !p.isType(p.peek(1).s) && (p.peek(2).s == "(" || p.peek(2).s == "]") {
+		} else if p.is("[") && p.peek(1).k == 'i' && (!p.isType(p.peek(1).s) || cHlslAttr[p.peek(1).s]) && (p.peek(2).s == "(" || p.peek(2).s == "]") {
 			p.adv()
 			var sb []string
 			for !p.is("]") && p.tok().k != 'e' {
@@ -480,6 +503,7 @@ func (p *cparser) item() string {
 			pn := ""
 			if p.tok().k == 'i' {
 				pn = p.ident()
+				p.hideType(pn)
 			}
 			pty = p.arraySuffix(pty)
 			if p.accept(":") {
@@ -502,6 +526,7 @@ func (p *cparser) item() string {
 			return ""
 		}
 		body := p.blockStmt()
+		p.unhideTypes()
 		return sx("func", "("+strings.Join(append(at, qs...), " ")+")", ty, q(name), "("+strings.Join(params, " ")+")", body)
 	}
 	ty = p.arraySuffix(ty)
@@ -588,6 +613,7 @@ func (p *cparser) declStmt() string {
 	name := p.ident()
 	ty = p.arraySuffix(ty)
 	parts := []string{"(" + strings.Join(qs, " ") + ")", ty, q(name)}
+	p.hideType(name) // (from here on; C++ puts the name in scope before its initialiser as well)
 	if p.accept("=") {
 		parts = append(parts, p.initializer())
 	} else if p.is("{") {
